@@ -40,10 +40,16 @@ class PData:
     y: List[int]
 
 
-TYPES: Dict[str, Any] = {"int": int, "float": float, "str": str, "bool": bool, "listint": List[int], "model": PModel, "dc": PData,
+# two DIFFERENT classes with the same module and qualified name (class factories produce these)
+DupA = pydantic.create_model("Dup", value=(int, ...))
+DupB = pydantic.create_model("Dup", value=(str, ...))
+DupA.__module__ = DupB.__module__ = __name__
+
+TYPES: Dict[str, Any] = {"dupa": DupA, "dupb": DupB,"int": int, "float": float, "str": str, "bool": bool, "listint": List[int], "model": PModel, "dc": PData,
                          "optint": Optional[int]}
 # (convertible-and-changing value, not convertible value, native value)
 VALUES: Dict[str, Tuple[Any, Any, Any]] = {
+    "dupa": ({"value": "7"}, {"value": "x"}, {"value": 7}), "dupb": ({"value": "7"}, {"value": [1]}, {"value": "s"}),
     "int": ("5", "five", 5), "float": ("1.5", "x", 2.5), "str": (b"bytes".decode(), [1], "s"), "bool": ("true", "maybe", True),
     "listint": (["1", 2], "no", [1, 2]), "model": ({"a": "3"}, {"a": "x"}, {"a": 3, "b": "dflt"}),
     "dc": ({"x": "4", "y": ["5"]}, {"x": "q"}, {"x": 4, "y": [5]}), "optint": ("7", "seven", 7),
@@ -139,6 +145,10 @@ def run(case: Dict[str, Any]) -> Dict[str, Any]:
         src = f"async def fn({', '.join(params)}):\n    GOT.update(locals())\n    return 1\n"
         glb = {"TYPES": TYPES, "Any": Any, "TaskiqDepends": TaskiqDepends, "DEP": dep_value, "GOT": got, "__name__": __name__}
         exec(src, glb)  # noqa: S102
+        receiver_early = None
+        if case.get("late"):
+            # the worker exists before the task is registered (dynamically defined task / in-memory broker order)
+            receiver_early = Receiver(broker, executor=InlineExecutor(), validate_params=case.get("parse", True), run_startup=False)
         task = broker.register_task(glb["fn"], task_name="fn")
         args: List[Any] = []
         kwargs: Dict[str, Any] = {}
@@ -156,7 +166,7 @@ def run(case: Dict[str, Any]) -> Dict[str, Any]:
         # round trip of the message itself
         tm = broker.formatter.loads(bm.message)
         rt_ok = broker.formatter.loads(broker.formatter.dumps(tm).message) == tm
-        receiver = Receiver(broker, executor=InlineExecutor(), validate_params=case.get("parse", True), run_startup=False)
+        receiver = receiver_early or Receiver(broker, executor=InlineExecutor(), validate_params=case.get("parse", True), run_startup=False)
         loop.run_coro(receiver.callback(bm.message))
         obs = []
         from taskiq.kicker import AsyncKicker
